@@ -6,7 +6,7 @@ From PegV Require Import Base.Tac Spec.Syntax Spec.Peg Model.Machine Model.Runti
     lookahead included) that reached the furthest offset - or the zero token - and it lies inside
     the input. *)
 Theorem C11_error_token :
-  forall g ptx buf penv, good_grammar g -> good_buf buf ->
+  forall g ptx buf penv, good_grammar g -> good_buf buf -> good_switches g ->
   forall memo inline n r st0 evs,
     slot_ok g inline r -> peg_parse g ptx buf penv n r = Some (Fail, evs) ->
     exists st', machine g ptx buf penv memo inline n r st0 = Some (Ret false st') /\
